@@ -23,8 +23,12 @@ Runnability half (trippy-core).
  R6 for every cell of protocol × strategy × port direction × family × privilege that Builder::build accepts, issuing a probe
     (TracerState::next_probe) and dispatching it reach no explicit panic (unimplemented!, unreachable!, panic!); cells that do reach one must
     be rejected by the builder.
-Not decided: that a run "executes rounds" on a real network; panics through arithmetic on the send path are audited only as far as C04 / C07 / C10 /
-C14 reach (receive path, state machine invariants, aggregator, extensions); clap's own parsing (conflicts_with, value parsers).
+ R7 the remaining run-time path (everything reachable from Strategy::run / Tracer::run in trippy-core and the packet builders that is not already
+    audited by C04 (receive path), C10 (aggregator) or C14 (extensions)): every panic-capable construct is discharged by the range prover under
+    the ranges Builder::build enforces (R5) and the state-machine invariants decided by C06 / C07 (imported: C07.R2–R5), by a reviewed allow
+    entry, or reported. The pending TCP connection list never exceeds its capacity: every push is preceded by the is_full() eviction.
+Not decided: that a run "executes rounds" on a real network; resource exhaustion other than the bounded lists; clap's own parsing (conflicts_with,
+value parsers); platform (socket) code.
 """
 import re
 
@@ -69,7 +73,7 @@ def run(chk, tier):
     for r, d, fl in (('R1', 'layer helper tables', 3), ('R2', 'provenance of every TrippyConfig field; every Args / file field consumed once', 150),
                      ('R2d', 'decision tables of derived options', 9), ('R3', 'theme / binding items: command line, then file, then default, names agree', 70),
                      ('R4', 'documented defaults equal the defaults used', 30), ('R5', 'Builder::build accept table and enforced ranges', 12),
-                     ('R6', 'no explicit panic reachable in a builder-accepted cell', 100)):
+                     ('R6', 'no explicit panic reachable in a builder-accepted cell', 100), ('R7', 'send path / state machine panic-site audit under the builder-enforced ranges', 60), ('R7t', 'loops terminate', 0)):
         chk.rule(r, d, floor=fl)
 
     # ---- R1 --------------------------------------------------------------------------------------------------
@@ -522,3 +526,91 @@ def run(chk, tier):
                      key='R6|panic|%s' % c.name())
         else:
             chk.ok('R6', inst, 'accepted; no explicit panic on issue + dispatch')
+
+
+    # ---- R7 send path / state machine audit ----------------------------------------------------------------------------------
+    import json as _json
+    import os as _os
+    from ..callgraph import CallGraph
+    from ..vra import Lin
+    from .c04 import audit_scope, roots_and_scope
+    run_sub(chk, 'c07', 'C07.', {'R2', 'R3', 'R5', 'R6'})
+    cg = CallGraph(prog)
+    roots = [prog.find(r'strategy::Strategy::run$')['path'], prog.find(r'tracer::Tracer::run$')['path']]
+    stop = {p_ for p_ in prog.fns if '::tests::' in p_ or 'trippy_core::net::platform::' in p_ or prog.fns[p_]['crate'] == 'tui'}
+    scope = {p_ for p_ in cg.reachable(roots, stop=stop) if prog.fns[p_]['crate'] in ('core', 'packet')}
+    scope = {p_ for p_ in scope if not (prog.fns[p_]['span']['exp'] and re.match(r'core::ops::(arith|bit)::', prog.fns[p_].get('trait_item') or ''))}
+    _, s4 = roots_and_scope(prog, cg)
+    scope = {p_ for p_ in scope - set(s4) if not prog.fns[p_].get('derived') and not re.search(r'trippy_core::state::|trippy_core::flows::|<trippy_core::(state|flows)::', p_)}
+    MAXTTL = prog.const_val('trippy_core::constants::MAX_TTL')
+    BS = prog.const_val('trippy_core::strategy::state::BUFFER_SIZE')
+    MAXINIT = prog.const_val('trippy_core::constants::MAX_INITIAL_SEQUENCE')
+    layout = _json.load(open(_os.path.join(_os.path.dirname(_os.path.abspath(__file__)), '..', '..', '..', 'spec', 'rfc_layout.json')))
+    mins = {k.split('::')[-1]: v['min'] for k, v in layout.items() if isinstance(v, dict) and 'min' in v and k.split('::')[1] in ('ipv4', 'ipv6', 'udp', 'tcp', 'icmpv4')}
+
+    def min_size(name):
+        m = re.match(r'call:(\w+)::minimum_packet_size\(\)$', name)
+        v = mins.get(m.group(1)) if m else None
+        return (v, v)
+    hints = [(r'(^|\.)ttl(\.0)?$', 1, MAXTTL + 1), (r'first_ttl(\.0)?$', 1, MAXTTL), (r'max_ttl(\.0)?$', 0, MAXTTL), (r'initial_sequence(\.0)?$', 0, MAXINIT),
+             (r'max_received_ttl#Some\.0(\.0)?$|target_ttl#Some\.0(\.0)?$', 0, MAXTTL), (r'^call:\w+::minimum_packet_size\(\)$', min_size, None), (r'^call:NonZero::get\(', 1, None)]
+    chk.assumptions += ['view minimum sizes = RFC minimum header sizes (C12)', 'builder ranges: 1 ≤ first_ttl ≤ MAX_TTL, max_ttl ≤ MAX_TTL, initial_sequence ≤ MAX_INITIAL_SEQUENCE (R5)',
+                        'state machine: round_sequence ≤ sequence, initial_sequence ≤ sequence (C07.R2 / R5, imported)']
+
+    def inv7(P):
+        out = []
+        for n in list(P.atoms):
+            m = re.fullmatch(r'(.*)\.sequence(\.0)?', n)
+            if m:
+                for rs in ('%s.round_sequence' % m.group(1), '%s.round_sequence.0' % m.group(1)):
+                    if rs in P.atoms:
+                        out.append(Lin(0, {n: 1, rs: -1}))
+                for ini in [a for a in P.atoms if re.search(r'initial_sequence(\.0)?$', a)]:
+                    out.append(Lin(0, {n: 1, ini: -1}))
+        return out
+    ALLOW7 = [
+        (r'TracerState::next_probe$', 'BoundsCheck', 'index', 'buffer[sequence − round_sequence]: < BUFFER_SIZE — TCP by the round_has_capacity() guard that precedes every issue (C07.R3, imported), ICMP / UDP because a round issues one sequence per ttl ≤ MAX_TTL < BUFFER_SIZE (C06.R1 / R4)'),
+        (r'TracerState::(fail_probe|reissue_probe)$', 'Overflow:Sub', 'Sub usize', 'sequence − round_sequence − 1: called only directly after next_probe / reissue_probe issued a probe in this round (C07.R3 call-order rule, C09.R4 failure tables)'),
+        (r'TracerState::(fail_probe|reissue_probe)$', 'BoundsCheck', 'index', 'index of the probe just issued (see the entry above)'),
+        (r'TracerState::probes$', 'slice-index', '', 'buffer[..sequence − round_sequence]: at most BUFFER_SIZE sequences per round (C07.R3)'),
+        (r'TracerState::advance_round$', 'arith-trait', 'add_assign', 'round counter += 1 per round (usize)'),
+        (r'TracerState::probe_udp_data$', 'Overflow:Add', 'Add usize', 'initial_sequence (u16) + round counter in usize'),
+        (r'Strategy::send_request$', 'arith-trait', 'sub', 'ttl − max_received_ttl: only probes issued with ttl − 1 of an earlier value of ttl are ever completed, so max_received_ttl < ttl (C03.R4 transition table, C06.R2 ttl effects)'),
+        (r'InternalBitFlags::all$', 'BoundsCheck', 'index', 'bitflags!-generated: constant indices into the constant FLAGS table'),
+        (r'checksum::ipv6_checksum$', 'Overflow:Add', 'Add u32', 'pseudo-header words + length (≤ 1024 on this path) + word sum (< 2^26) cannot reach 2^32'),
+        (r'checksum::ipv4_checksum$', 'Overflow:Add', 'Add u32', 'pseudo-header words + length (≤ 1024 on this path) + word sum (< 2^26) cannot reach 2^32'),
+        (r'checksum::sum_be_words$', 'Overflow:Add', 'Add u32', 'u32 sum of 16-bit words of a packet of at most MAX_PACKET_SIZE octets'),
+        (r'checksum::sum_be_words$', 'Overflow:Add', 'Add usize', 'word counter i ≤ len/2'),
+        (r'Ipv4Packet::set_payload$', 'slice-index', '', 'buf[20 + options..]: make_ipv4_packet sets IHL = 5 before set_payload and sizes the buffer as 20 + payload (C11.R1 setter order, C11.R2 length equalities)'),
+        (r'Channel::dispatch_tcp_probe$', 'api', 'remove', 'ArrayVec::remove(0) on a full (hence non-empty) list (tcp_probes:capacity rule below)'),
+        (r'Channel::dispatch_tcp_probe$', 'api', 'push', 'ArrayVec::push after the is_full() eviction (tcp_probes:capacity rule below)'),
+        (r'Ipv4::make_ipv4_packet$', 'slice-index', '', 'ipv4_buf[..20 + |payload|] of a MAX_PACKET_SIZE buffer: the inner packet is packet_size − 20 octets under the MIN..=MAX_PACKET_SIZE guard (C11.R2 length equalities, C11.R4 size guards), the Paris payload is 2 octets'),
+        (r'Ipv6::make_udp_packet$', 'slice-index', '', 'udp_buf[..8 + |payload|] of a MAX_PACKET_SIZE − 40 buffer: |payload| = packet_size − 48 under the size guard, 2 for Paris, MAGIC + offset for Dublin (C11.R2 / R4, C07.R6)'),
+        (r'Ipv6::dispatch_udp_probe_raw$', 'slice-index', '', 'dublin_payload[..MAGIC + (sequence − initial_sequence)]: proved at this site by C07.R6 (imported) under the round bound offset ≤ BUFFER_SIZE − 1 + MAX_TTL'),
+        (r'dispatch_udp_probe_raw::\{closure#0\}$', 'BoundsCheck', 'index', 'payload()[0..2] of the Paris datagram, whose payload is the 2-octet sequence (C11.R3 Paris pair)'),
+    ]
+    audit_scope(chk, prog, cg, roots, scope, tier, 'R7', 'R7t', ALLOW7, [], hints=hints, invariants=[inv7],
+                loop_allow=[(r'Strategy::run$', 'the tracing loop: runs until finished(max_rounds) (C09.R1) or an error')])
+    # the pending TCP connection list
+    fpush = prog.find(r'net::channel::Channel<S>::dispatch_tcp_probe$|Channel::<S>::dispatch_tcp_probe$', unique=False) or [f_ for p_, f_ in prog.fns.items() if re.search(r'Channel.*::dispatch_tcp_probe$', p_)]
+    for f_ in fpush[:1]:
+        e7 = Engine(prog, inline_depth=0)
+        st7 = St()
+        outs7 = e7.run(f_, [e7.sym_ref(st7, 'self'), ('sym', 'probe')], st7)
+        bad7 = None
+        n7 = 0
+        for o_ in outs7:
+            cs = [short(c[1]) for c in user_calls(o_, r'arrayvec::.*::(push|remove|is_full|try_push|pop|clear|truncate)$')]
+            if not any(x.endswith('::push') for x in cs):
+                continue
+            n7 += 1
+            d7 = dict((vshow(a), v) for a, v, _ in o_.st.decisions)
+            full = [v for a, v in d7.items() if re.fullmatch(r'call:ArrayVec::is_full\(.*tcp_probes.*\)', a)]
+            evicted = any(x.endswith('::remove') or x.endswith('::pop') for x in cs[:cs.index([x for x in cs if x.endswith('::push')][0])])
+            if not full or (full[-1] == 1 and not evicted):
+                bad7 = 'pushes onto tcp_probes %s' % ('without testing is_full()' if not full else 'while full without evicting an entry')
+        if bad7 or not n7:
+            chk.fail('R7', 'tcp_probes:capacity', fn_loc(f_), 'Channel::dispatch_tcp_probe %s: ArrayVec::push panics at capacity, which short rounds against a target that drops SYNs reach within tcp_connect_timeout' % (bad7 or 'has no push trace (anchor lost)'),
+                     key='R7|tcp_probes|capacity')
+        else:
+            chk.ok('R7', 'tcp_probes:capacity', 'every push is preceded by is_full() → evict the oldest pending connection (%d traces)' % n7)
